@@ -42,7 +42,7 @@ def cfg(metrics, data, times, exps, limits, gct, emit=True):
         invariants=INVS, properties=["OnlyCurShrinks"])
 
 
-def judge(ctx, recs):
+def judge(ctx, recs, op="Judge"):
     """TLC evaluates the statement (Judge = GcPost on a record) on stores the real Gc produced."""
     path = os.path.join(ctx.sub("judge"), "real.ndjson")
     with open(path, "w") as f:
@@ -51,7 +51,7 @@ def judge(ctx, recs):
     mc = ('---- MODULE MCJudge ----\nEXTENDS StoreGc\nRecs == ndJsonDeserialize("%s")\nVARIABLE k\n'
           'JInit == k \\in 1..Len(Recs) /\\ pre = <<>> /\\ store = <<>> /\\ T = 0 /\\ pc = "judge" /\\ todo = {} /\\ cur = 0 /\\ i = 0\n'
           'JNext == UNCHANGED <<vars, k>>\n'
-          'JEmit == PrintT(<<"CASE", ToJson([k |-> k, ok |-> Judge(Recs[k])])>>)\n====\n' % path)
+          'JEmit == PrintT(<<"CASE", ToJson([k |-> k, ok |-> %s(Recs[k])])>>)\n====\n' % (path, op))
     c = vlib.cfg_text(init="JInit", next_="JNext", constants={
         "DEV_BackslashNotEscaped": False, "MaxMetrics": 1, "MaxData": 1, "Times": "={1}", "ExpirySet": "={0}",
         "Limits": "={0}", "GcTimes": "={1}", "EmitCases": False}, invariants=["JEmit"])
@@ -115,6 +115,38 @@ def replay_cases(ctx, binary, cases, what, drift):
     return uniq
 
 
+def second_passes(ctx, binary, cases):
+    """A later pass must do what the statement says whatever an earlier pass saw: every finished pass of the model is run
+    again, on the real store it left, at T2 in {T, T+1, T+2} (time passing = every datum re-stamped as far before the new
+    pass as the model says, i.e. updates with OLDER timestamps) and with one datum re-stamped; TLC judges the real
+    (before, T2, after) with the statement GcPost itself (Judge2)."""
+    todo = []
+    for n, c in enumerate(cases):
+        if not any(c["post"]):
+            continue
+        for dt in (0, 1, 2):
+            todo.append(dict(c, second={"T2": c["T"] + dt}))
+        m = next(i for i, p in enumerate(c["post"]) if p)
+        d = c["post"][m][n % len(c["post"][m])]
+        for nt in {max(1, d[1] - 2), d[1] + 1}:
+            todo.append(dict(c, second={"T2": c["T"] + 1, "upd": [m + 1, d[0], nt]}))
+    recs = [r for r in vlib.run_harness(ctx, binary, cases=todo, timeout=1800) if "second" in r]
+    if len(recs) != len(todo):
+        raise vlib.InfraError("second passes: harness answered %d of %d" % (len(recs), len(todo)))
+    ok = judge(ctx, [r["second"] for r in recs], op="Judge2")
+    ctx.cov["second_passes"] = len(recs)
+    ctx.cov["evaluations"] += len(recs)
+    for r, good in zip(recs, ok):
+        if good or ctx.enough():
+            continue
+        again = [x for x in vlib.run_harness(ctx, binary, cases=[r["case"]]) if "second" in x][0]
+        if not judge(ctx, [again["second"]], op="Judge2")[0]:
+            s2 = again["second"]
+            ctx.violation({"kind": "second", "case": r["case"], "second": s2},
+                          "a second Store.Gc pass at T=%d on the store %s (limits %s) that an earlier pass at T=%d left: store after the pass is %s - "
+                          "rejected by GcPost" % (s2["T"], json.dumps(s2["before"]), s2["limits"], r["case"]["T"], json.dumps(s2["post"])))
+
+
 def run(ctx):
     binary = vlib.build(ctx, "c10")
     drift = []
@@ -129,6 +161,9 @@ def run(ctx):
         seen += replay_cases(ctx, binary, r.cases, name, drift)
         for x in [x for x in r.cases if nontrivial(x)][7:9]:
             ctx.sample(x)
+    if not ctx.violations:
+        uniq = list({key(c): c for c in seen}.values())
+        second_passes(ctx, binary, uniq if ctx.thorough else uniq[::3])
     if ctx.thorough:
         # model only: five data per metric; and a small configuration with coverage: no action may be vacuous
         vlib.tlc(ctx, "StoreGc", cfg(1, 5, 2, 1, 3, 4, emit=False), label="StoreGc-five-data", timeout=2400)
@@ -156,6 +191,11 @@ def run(ctx):
 def replay(ctx, path):
     binary = vlib.build(ctx, "c10")
     blob = json.load(open(path))["case"]
+    if blob.get("kind") == "second":
+        again = [x for x in vlib.run_harness(ctx, binary, cases=[blob["case"]]) if "second" in x][0]
+        if not judge(ctx, [again["second"]], op="Judge2")[0]:
+            ctx.violation(blob, "reproduced: second pass leaves %s" % json.dumps(again["second"]["post"]))
+        return
     recs = [r for r in vlib.run_harness(ctx, binary, cases=[blob["case"]]) if r.get("mismatch")]
     for r in recs:
         if not r["why"].startswith("store after Gc is") or not judge(ctx, [{"T": blob["case"]["T"], "pre": blob["case"]["pre"], "post": r["got"]}])[0]:
